@@ -29,16 +29,16 @@ structure TInv (cfg : Cfg) (m0 : Mem) (g : Sh) (t : Tid) (l : Loc) : Prop where
     ∀ newer older, lin cfg g.trace = newer ++ t :: older → v = retOf cfg m0.pages older t
 
 /-- global invariant -/
-structure GInv (cfg : Cfg) (m0 : Mem) (s : Sh × (Tid → Loc)) : Prop where
-  data : s.1.mem.data = m0.data
-  free : s.1.mutex = none → s.1.mem.pages = replay cfg m0.pages (lin cfg s.1.trace) ∧ SizeInv m0 s.1.mem
-  rt : ∀ a b va, cfg.isGrow a = true → Older s.1.trace (Ev.res a va) (Ev.inv b) → b ∈ lin cfg s.1.trace →
-    Older (lin cfg s.1.trace) a b
-  thr : ∀ t, TInv cfg m0 s.1 t (s.2 t)
+structure GInv (cfg : Cfg) (m0 : Mem) (g : Sh) (ls : Tid → Loc) : Prop where
+  data : g.mem.data = m0.data
+  free : g.mutex = none → g.mem.pages = replay cfg m0.pages (lin cfg g.trace) ∧ SizeInv m0 g.mem
+  rt : ∀ a b va, cfg.isGrow a = true → Older g.trace (Ev.res a va) (Ev.inv b) → b ∈ lin cfg g.trace →
+    Older (lin cfg g.trace) a b
+  thr : ∀ t, TInv cfg m0 g t (ls t)
 
 /-! ### the invariant holds initially -/
 
-theorem ginv_init {cfg : Cfg} {m0 : Mem} (wf : WF cfg m0) : GInv cfg m0 (initState cfg m0) := by
+theorem ginv_init {cfg : Cfg} {m0 : Mem} (wf : WF cfg m0) : GInv cfg m0 (initState cfg m0).1 (initState cfg m0).2 := by
   refine ⟨rfl, fun _ => ⟨rfl, Or.inl rfl⟩, ?_, ?_⟩
   · intro a b va _ h; obtain ⟨l1, l2, h, _⟩ := h; simp [initState] at h
   · intro t
@@ -116,9 +116,9 @@ theorem not_mem_lin_of_no_events {cfg : Cfg} {t : Tid} {tr : List Ev} (h : ∀ e
   · exact h _ h1 rfl
   · exact h _ h1 rfl
 
-theorem step_idle {cfg : Cfg} {m0 : Mem} {g : Sh} {ls : Tid → Loc} (hI : GInv cfg m0 (g, ls)) (t : Tid)
+theorem step_idle {cfg : Cfg} {m0 : Mem} {g : Sh} {ls : Tid → Loc} (hI : GInv cfg m0 g ls) (t : Tid)
     (hst : (ls t).st = .idle) :
-    GInv cfg m0 ({ g with trace := Ev.inv t :: g.trace }, upd ls t { ls t with st := .run }) := by
+    GInv cfg m0 { g with trace := Ev.inv t :: g.trace } (upd ls t { ls t with st := .run }) := by
   have hT := hI.thr t
   obtain ⟨hpc, hregs, hph, hnoev⟩ := hT.idle hst
   refine ⟨hI.data, hI.free, ?_, ?_⟩
@@ -152,5 +152,135 @@ theorem step_idle {cfg : Cfg} {m0 : Mem} {g : Sh} {ls : Tid → Loc} (hI : GInv 
     · rw [upd_other _ _ hu]
       exact TInv_frame (hI.thr u) (Or.inr ⟨_, rfl, fun h => hu h.symm⟩) Iff.rfl (fun _ => rfl) (Or.inl rfl)
         (fun _ => rfl)
+
+theorem step_cont {cfg : Cfg} {m0 : Mem} (wf : WF cfg m0) {g : Sh} {ls : Tid → Loc} (hI : GInv cfg m0 g ls)
+    (t : Tid) (hst : (ls t).st = .run) {m' : Mem} {pc' : Nat} {ρ' : Nat → Nat}
+    (ha : act cfg.imm (cfg.prog t) g.mem (ls t).pc (ls t).regs = .cont m' pc' ρ') :
+    GInv cfg m0 { g with mem := m' } (upd ls t { ls t with pc := pc', regs := ρ' }) := by
+  have hT := hI.thr t
+  -- facts about the step, for grows (discipline) and for readers (read-only)
+  have hfacts : m'.data = g.mem.data ∧ ((ls t).ph ≠ .held → m' = g.mem) ∧
+      (cfg.isGrow t = true → Good (cfg.prog t) (ls t).ph pc' ρ' ∧
+        ((ls t).ph ≠ .held → ∀ m2, act cfg.imm (cfg.prog t) m2 (ls t).pc (ls t).regs = .cont m2 pc' ρ')) := by
+    cases hg : cfg.isGrow t with
+    | true =>
+      have ga := good_act wf.shared (hT.good hg (Or.inr hst)) g.mem
+      rw [ha] at ga
+      exact ⟨ga.2.1, fun h => (ga.2.2 h).1, fun _ => ⟨ga.1, fun h => (ga.2.2 h).2⟩⟩
+    | false =>
+      have ra := readOnly_act (imm := cfg.imm) (wf.reader t hg) g.mem (ls t).pc (ls t).regs
+      rw [ha] at ra
+      dsimp only at ra
+      exact ⟨by rw [ra], fun _ => ra, fun h => by cases h⟩
+  obtain ⟨hdata, hmem, hgrow⟩ := hfacts
+  have hnotheld_of_other : ∀ u, u ≠ t → (ls u).ph = .held → (ls t).ph ≠ .held := by
+    intro u hu hph hph'
+    have h1 := (hI.thr u).held.mp hph
+    have h2 := hT.held.mp hph'
+    rw [h1] at h2
+    exact hu (Option.some.inj h2)
+  refine ⟨by rw [← hI.data]; exact hdata, ?_, hI.rt, ?_⟩
+  · intro hm
+    have hne : (ls t).ph ≠ .held := by
+      intro hp; have := hT.held.mp hp; rw [hm] at this; cases this
+    show m'.pages = _ ∧ SizeInv m0 m'
+    rw [hmem hne]; exact hI.free hm
+  · intro u
+    by_cases hu : u = t
+    · subst hu
+      rw [upd_same]
+      refine ⟨?_, hT.inv_ev, hT.res_ev, hT.rel_ev, hT.held, hT.reader, ?_, ?_, ?_, ?_, ?_⟩
+      · intro h; rw [show ({ ls u with pc := pc', regs := ρ' } : Loc).st = (ls u).st from rfl, hst] at h; cases h
+      · intro hg _; exact (hgrow hg).1
+      · intro hg hp _ m r
+        have hp' : (ls u).ph = .pre := hp
+        have hne : (ls u).ph ≠ .held := by rw [hp']; decide
+        rw [hT.seq_pre hg hp' (Or.inr hst) m r]
+        exact Final_cont ((hgrow hg).2 hne m) r
+      · intro hg hp
+        have hp' : (ls u).ph = .held := hp
+        obtain ⟨ms, h1, h2, h3⟩ := hT.seq_held hg hp'
+        refine ⟨ms, h1, h2, fun r => ?_⟩
+        rw [h3 r]
+        exact Final_cont ha r
+      · intro hg hp
+        have hp' : (ls u).ph = .post := hp
+        have hne : (ls u).ph ≠ .held := by rw [hp']; decide
+        obtain ⟨newer, older, h1, h2⟩ := hT.seq_post hg hp'
+        refine ⟨newer, older, h1, fun _ => ?_⟩
+        obtain ⟨ms, m1, h3, h4⟩ := h2 hst
+        refine ⟨ms, m1, h3, fun r => ?_⟩
+        rw [h4 r]
+        exact Final_cont ((hgrow hg).2 hne m1) r
+      · intro v hv; rw [show ({ ls u with pc := pc', regs := ρ' } : Loc).st = (ls u).st from rfl, hst] at hv; cases hv
+    · rw [upd_other _ _ hu]
+      exact TInv_frame (hI.thr u) (Or.inl rfl) Iff.rfl
+        (fun hp => hmem (hnotheld_of_other u hu hp)) (Or.inl rfl) (fun _ => rfl)
+
+theorem isGrow_of_not_readOnly_lock {cfg : Cfg} {m0 : Mem} (wf : WF cfg m0) {t : Tid} {m : Mem} {pc : Nat}
+    {ρ : Nat → Nat} {pc' : Nat} (ha : act cfg.imm (cfg.prog t) m pc ρ = .lock pc') : cfg.isGrow t = true := by
+  cases hg : cfg.isGrow t with
+  | true => rfl
+  | false =>
+    have ra := readOnly_act (imm := cfg.imm) (wf.reader t hg) m pc ρ
+    rw [ha] at ra; exact ra.elim
+
+theorem isGrow_of_not_readOnly_unlock {cfg : Cfg} {m0 : Mem} (wf : WF cfg m0) {t : Tid} {m : Mem} {pc : Nat}
+    {ρ : Nat → Nat} {pc' : Nat} (ha : act cfg.imm (cfg.prog t) m pc ρ = .unlock pc') : cfg.isGrow t = true := by
+  cases hg : cfg.isGrow t with
+  | true => rfl
+  | false =>
+    have ra := readOnly_act (imm := cfg.imm) (wf.reader t hg) m pc ρ
+    rw [ha] at ra; exact ra.elim
+
+theorem step_lock {cfg : Cfg} {m0 : Mem} (wf : WF cfg m0) {g : Sh} {ls : Tid → Loc} (hI : GInv cfg m0 g ls)
+    (t : Tid) (hst : (ls t).st = .run) {pc' : Nat}
+    (ha : act cfg.imm (cfg.prog t) g.mem (ls t).pc (ls t).regs = .lock pc') (hfree : g.mutex = none) :
+    GInv cfg m0 { g with mutex := some t, trace := Ev.acq t :: g.trace }
+      (upd ls t { ls t with pc := pc', ph := .held }) := by
+  have hT := hI.thr t
+  have hg : cfg.isGrow t = true := isGrow_of_not_readOnly_lock wf ha
+  have ga := good_act wf.shared (hT.good hg (Or.inr hst)) g.mem
+  rw [ha] at ga
+  obtain ⟨hph, hgood, _⟩ := ga
+  refine ⟨hI.data, fun h => (by cases h), ?_, ?_⟩
+  · intro a b va hga hold hb
+    rw [show ({ g with mutex := some t, trace := Ev.acq t :: g.trace } : Sh).trace = Ev.acq t :: g.trace from rfl,
+      lin_acq_cons] at hb ⊢
+    rcases Older_cons.mp hold with ⟨he, _⟩ | h2
+    · cases he
+    · exact hI.rt a b va hga h2 hb
+  · intro u
+    by_cases hu : u = t
+    · subst hu
+      rw [upd_same]
+      refine ⟨?_, ?_, ?_, ?_, ?_, ?_, ?_, ?_, ?_, ?_, ?_⟩
+      · intro h; rw [show ({ ls u with pc := pc', ph := Phase.held } : Loc).st = (ls u).st from rfl, hst] at h; cases h
+      · intro h; exact List.mem_cons_of_mem _ (hT.inv_ev h)
+      · intro v hv
+        rcases List.mem_cons.mp hv with h | h
+        · cases h
+        · exact hT.res_ev v h
+      · intro hv
+        rcases List.mem_cons.mp hv with h | h
+        · cases h
+        · have := hT.rel_ev h; rw [hph] at this; cases this
+      · exact ⟨fun _ => rfl, fun _ => rfl⟩
+      · intro h; rw [hg] at h; cases h
+      · intro _ _; exact hgood
+      · intro _ hp; cases hp
+      · intro _ _
+        obtain ⟨h1, h2⟩ := hI.free hfree
+        refine ⟨g.mem, h1, h2, fun r => ?_⟩
+        show _ ↔ Final cfg.imm (cfg.prog u) g.mem pc' (ls u).regs r
+        rw [hT.seq_pre hg hph (Or.inr hst) g.mem r]
+        exact Final_lock ha r
+      · intro _ hp; cases hp
+      · intro v hv; rw [show ({ ls u with pc := pc', ph := Phase.held } : Loc).st = (ls u).st from rfl, hst] at hv; cases hv
+    · rw [upd_other _ _ hu]
+      refine TInv_frame (hI.thr u) (Or.inr ⟨_, rfl, fun h => hu h.symm⟩) ?_ (fun _ => rfl) (Or.inl rfl) (fun _ => rfl)
+      constructor
+      · intro h; exact absurd (Option.some.inj h).symm hu
+      · intro h; rw [hfree] at h; cases h
 
 end W2c2Verif.Model.Grow
